@@ -31,8 +31,6 @@ UNIT1 = ["inv", "invin"]
 UNIT2 = ["div", "divin"]
 
 
-KNOWN_BALNEG_SITE = "ModularBalanced<T>::neg"
-KNOWN_BALNEG_KLASS = "even modulus, result -(p/2)"
 BAL_NEG_OPS = ("neg", "negin", "maxpy", "maxpyin")
 
 
@@ -193,10 +191,10 @@ NO_MODEL_OPS = {"ru": ("inv", "invin", "div", "divin"),       # RecInt::inv_mod 
                 "zz": ("inv", "invin", "div", "divin", "isUnit")}
 
 
-def model_line(ring, p, op, a, exbr=None, negfix=None):
+def model_line(ring, p, op, a, exbr=None):
     """the line for the extracted-model driver, or None when the call form is not modelled.
     exbr[ring] = (branch of ModularExtended::mul, of ::reduce) the configuration compiled (0 FMA, 1 Dekker, 2 fallback);
-    negfix[ring]: ModularBalanced::neg normalises (frag/C03.fix-1 applied) -- both as reported by the implementation."""
+    ModularBalanced::neg is the repaired body of /repo (edb1d16: r = -a; if (r < _mhalfp) r += _p): model ops negn / maxpyn."""
     op = op.split(":")[0]                 # the alias pattern does not exist in the model (no object identity)
     args = " ".join(str(x) for x in a)
     if op == "consts" or (op in ("mulpb2", "gcdext") and ring not in INT_RINGS):
@@ -209,11 +207,11 @@ def model_line(ring, p, op, a, exbr=None, negfix=None):
     if ring in FM_PREC:
         return "fm %d %d %d %s %s" % (FM_PREC[ring][0], FM_PREC[ring][1], p, op, args)
     if ring in BF_PREC:
-        if (negfix or {}).get(ring) and op in ("neg", "negin"):
+        if op in ("neg", "negin"):
             op = "negn"
         return "bf %d %d %s %s" % (BF_PREC[ring], p, op, args)
     if ring in BI_BITS:
-        if (negfix or {}).get(ring) and op in BAL_NEG_OPS:
+        if op in BAL_NEG_OPS:
             op = "negn" if op in ("neg", "negin") else "maxpyn"
         return "bi %d %d %s %s" % (BI_BITS[ring], p, op, args)
     if ring in EX_PREC:
@@ -946,6 +944,9 @@ def build_harness_parts(quick=True, ppdir=None):
     return out, logs, bad
 
 
+HANGS = []          # (case line, final answer) of every case on which the per-case CPU watchdog fired
+
+
 def run_impl(parts, cases_lines, rings, timeout=1500):
     """route every line to the binary that registers its ring, run the four binaries concurrently, restore the order"""
     import threading
@@ -959,11 +960,38 @@ def run_impl(parts, cases_lines, rings, timeout=1500):
         if not idx[k]:
             status[k] = (0, "")
             return
-        rc, o, e = vf.run_lines(parts[k], "".join(cases_lines[i] for i in idx[k]), timeout=timeout)
-        status[k] = (rc if len(o) == len(idx[k]) else (rc or 99), e)
-        if len(o) == len(idx[k]):
-            for i, l in zip(idx[k], o):
-                out[i] = l
+        todo = list(idx[k])
+        errs = ""
+        rc = 0
+        while todo:
+            rc, o, e = vf.run_lines(parts[k], "".join(cases_lines[i] for i in todo), timeout=timeout)
+            errs += e
+            if rc == 3 and o and o[-1].strip() == "DOES-NOT-RETURN" and len(o) <= len(todo):
+                # the per-case CPU watchdog of the harness fired on case todo[len(o)-1]: re-run it alone with five times the budget
+                for i, l in zip(todo, o[:-1]):
+                    out[i] = l
+                j = todo[len(o) - 1]
+                budget = int(os.environ.get("C03_CASE_CPU_S", "20"))
+                import subprocess
+                try:
+                    pr = subprocess.run([parts[k]], input=cases_lines[j], stdout=subprocess.PIPE, stderr=subprocess.PIPE, universal_newlines=True,
+                                        timeout=timeout, env=dict(os.environ, C03_CASE_CPU_S=str(5 * budget)))
+                    o1 = pr.stdout.splitlines()
+                except subprocess.TimeoutExpired:
+                    o1 = []
+                out[j] = o1[0] if o1 and o1[0].strip() != "DOES-NOT-RETURN" else "DOES-NOT-RETURN (no answer within %d s of CPU time)" % (5 * budget)
+                HANGS.append((cases_lines[j].strip(), out[j]))
+                todo = todo[len(o):]
+                rc = 0
+                continue
+            if len(o) == len(todo):
+                for i, l in zip(todo, o):
+                    out[i] = l
+                todo = []
+            else:
+                rc = rc or 99
+            break
+        status[k] = (rc, errs)
     ths = [threading.Thread(target=work, args=(k,)) for k in idx]
     for t in ths:
         t.start()
@@ -1108,11 +1136,6 @@ def main(tier, replay=None):
         info[r] = (int(t[0]), int(t[1]))
     chk.cov["advertised_bounds"] = {r: list(v) for r, v in info.items()}
     write_params(info)
-    # 0c. does ModularBalanced<T>::neg normalise (frag/C03.fix-1 applied)?  asked of the implementation: neg(2) modulo 4
-    rc, out, err = run_impl(himpl, ["%s 4 neg 2\n" % r for r in BAL_RINGS], BAL_RINGS)
-    negfix = {r: (rc == 0 and len(out) == len(BAL_RINGS) and out[i].strip() == "2") for i, r in enumerate(BAL_RINGS)}
-    chk.cov["balanced_neg_normalises"] = negfix
-    chk.cov["phase_seconds"]["ppinfo_info"] = round(_t.time() - _t0, 1)
     # 1. proofs
     _t0 = _t.time()
     res = vf.coq_check_props(AREA)
@@ -1226,7 +1249,7 @@ def main(tier, replay=None):
     for name in iouts:
         for i in iouts[name][0]:
             ring, p, op, a = cases[i]
-            ml = model_line(ring.split("@")[0], p, op, a, exbr.get(name), negfix)
+            ml = model_line(ring.split("@")[0], p, op, a, exbr.get(name))
             if ml is not None:
                 mline[(name, i)] = ml
                 mkey[ml] = None
@@ -1272,10 +1295,7 @@ def main(tier, replay=None):
             e = oracle(ring, p, op, a)
             exp = None if e is None else str(e)
             if exp is not None and got != exp:
-                if ring in BAL_RINGS and p % 2 == 0 and bop in BAL_NEG_OPS and e == p // 2 and got == str(-(p // 2)) and not negfix.get(ring):
-                    chk.fail_input(KNOWN_BALNEG_SITE, KNOWN_BALNEG_KLASS, case, exp, got,
-                                   "ModularBalanced negation of p/2 for even p leaves the canonical range [-(p/2)+1, p/2]")
-                else:
+                if True:
                     chk.fail_input("%s::%s" % (full_ring, op), "p=%d" % p, case, exp, got,
                                    "implementation differs from exact arithmetic mod p"
                                    + (" (ring object obtained by %s)" % OBTAIN_MODES[full_ring.split("@")[1]] if "@" in full_ring else "")
